@@ -197,6 +197,7 @@ def child_run(root: str, cfg: dict, dry_run: bool) -> dict:
     argv = cli_args(cfg, out, dry_run)
     err = None
     tb = None
+    raised_in = None
     sys.addaudithook(hook)
     try:
         main(argv)
@@ -205,10 +206,12 @@ def child_run(root: str, cfg: dict, dry_run: bool) -> dict:
     except BaseException as e:  # noqa
         err = type(e).__name__
         tb = traceback.format_exc()[-1800:]
+        frames = traceback.extract_tb(e.__traceback__)
+        raised_in = frames[-1].filename if frames else None
     lines = buf.getvalue().split("\n")
     if lines and lines[-1] == "":
         lines.pop()
-    return {"events": events, "prints": lines, "err": err, "tb": tb, "argv": argv}
+    return {"events": events, "prints": lines, "err": err, "tb": tb, "argv": argv, "raised_in": raised_in}
 
 
 def canon(s: str, root: str) -> str:
